@@ -956,6 +956,10 @@ pub const C15_STATEFUL_A: &[&str] = &[
     "x='é€';",
     "/*é*/",
     "* é;",
+    // more bytes in the literal buffer than tokens in the stream
+    "'a''bcdefghijklmnopqrstuvwxyz';",
+    "x=\"aaaaaaaaaaaaaaaaaaaaaaaaaaaaaa\"\"b\";",
+    "%put %str(%%aaaaaaaaaaaaaaaaaaaaaaaaaaaaaaaaaaaaaaaaaa);",
     "x=1e;",
     "x=0ffz;",
     "%let a=%eval(1+);",
